@@ -260,7 +260,10 @@ func (pt *ProjTable) genBoolExpr(t *rapid.T, depth int, label string) *sq.E {
 
 // genAny: an expression of any result kind, including CASE, literals and plain references.
 func (pt *ProjTable) genAny(t *rapid.T, depth int, label string) *sq.E {
-	switch rapid.IntRange(0, 11).Draw(t, label+".any") {
+	switch rapid.IntRange(0, 12).Draw(t, label+".any") {
+	case 12:
+		// ~ directly on ~, over any numeric operand (fractional, negative): the integer part of the operand
+		return sq.Tilde2(pt.genNum(t, depth-1, true, label+"tt"))
 	case 0:
 		return pt.genNonNeg(t, depth, label+"nn")
 	case 1:
